@@ -191,7 +191,8 @@ def c19_oracle(case, impl):
 
 class C19(c17.C17):
     id = "C19"
-    proof_targets = ["Master/SchedProofs.vo"]
+    translators = ["gen_master_tables"]
+    proof_targets = ["Master/SchedProofs.vo", "Master/TablesAgree.vo"]
     property_file = "Properties/C19.v"
     flavour = "sched"
     rule = ("msched scripts: 1..4 quiet or fully automatic associations on one channel, up to three polls per "
